@@ -256,18 +256,19 @@ type explorer struct {
 	outcomes *fw.Counter
 	samples  *fw.Sampler
 
-	seen        map[string]bool
-	cases       int64 // (history, engine) executed
-	transitions int64 // cases with at least one operation
-	probes      int64
-	nontrivial  int64
-	danglingSt  int64
-	errorSt     int64
-	reruns      int64
-	unrepro     []string
-	sigSeen     map[string]int
-	perDepth    []map[string]any
-	knownEx     map[string]any
+	seen         map[string]bool
+	statesByInit map[string]int
+	cases        int64 // (history, engine) executed
+	transitions  int64 // cases with at least one operation
+	probes       int64
+	nontrivial   int64
+	danglingSt   int64
+	errorSt      int64
+	reruns       int64
+	unrepro      []string
+	sigSeen      map[string]int
+	perDepth     []map[string]any
+	knownEx      map[string]any
 }
 
 func (e *explorer) runLayer(depth int, hs []history) (results [][2]*caseResult, complete bool) {
@@ -485,6 +486,7 @@ func (e *explorer) explore() {
 			}
 			e.seen[k] = true
 			newStates++
+			e.statesByInit[h.Init.Mods]++
 			e.samples.Add(map[string]any{"history": h.String(), "state": s.String()})
 			expand = append(expand, node{h, s})
 		}
@@ -511,14 +513,11 @@ func (e *explorer) explore() {
 					continue
 				}
 				if !e.cfg.Full && n.s.Inst[mM] != instNone {
-					// quick, shared-memory graph MN: only close/drop of the owner, runtime close, one growth (guest or host) and
-					// writes; every history still ends with probe, forced collection, probe
+					// quick, shared-memory graph MN: lifecycle of the owner M, cache/runtime close, collections, growth, writes
 					switch {
-					case o.K == kFresh, o.K == kCloseFiller, o.K == kCloseCache, o.K == kGC, o.K == kCloseComp:
+					case o.K == kFresh, o.K == kCloseFiller:
 						continue
-					case (o.K == kCloseInst || o.K == kDrop) && o.X == mN:
-						continue
-					case (o.K == kGrowGuest || o.K == kGrowHost) && n.s.MemGrown >= 1:
+					case (o.K == kCloseInst || o.K == kCloseComp || o.K == kDrop) && o.X == mN:
 						continue
 					}
 				}
@@ -602,7 +601,7 @@ func main() {
 		fw.Fatalf("tmp: %v", err)
 	}
 	e := &explorer{run: run, cfg: cfgFor(run), tmp: tmp, workers: runtime.NumCPU(), outcomes: fw.NewCounter(), samples: fw.NewSampler(14),
-		seen: map[string]bool{}, sigSeen: map[string]int{}}
+		seen: map[string]bool{}, sigSeen: map[string]int{}, statesByInit: map[string]int{}}
 	e.ops = e.cfg.alphabet()
 	e.explore()
 	os.RemoveAll(tmp)
@@ -628,10 +627,10 @@ func main() {
 			pd = append(pd, c)
 		}
 		b, _ := json.Marshal([]any{pd, e.outcomes.Map(), e.probes, sigs, len(e.seen), e.cases, e.danglingSt, e.errorSt})
-		fmt.Printf("c09: coverage-digest=%x\n", sha256.Sum256(b))
+		fmt.Printf("c09: coverage-digest=%x states-by-initial-graph=%v\n", sha256.Sum256(b), e.statesByInit)
 	}
 	extra := map[string]any{
-		"per_depth": e.perDepth, "probe_calls_compared_with_twin": e.probes, "states_not_expanded_dangling_reference": e.danglingSt,
+		"per_depth": e.perDepth, "states_first_reached_from_initial_graph": e.statesByInit, "probe_calls_compared_with_twin": e.probes, "states_not_expanded_dangling_reference": e.danglingSt,
 		"states_not_expanded_error": e.errorSt, "fresh_process_reruns": e.reruns, "failure_signatures": sigs,
 	}
 	if e.knownEx != nil {
